@@ -235,7 +235,7 @@ impl Case {
         Some(Case { lgwin: f[0] as i32, q: f[1] as i32, d: f[2] as usize, seed: f[3], magic: f[4] != 0, kind: f[5] as u32, api: f[6] as u32, iseed: f[7] })
     }
 }
-pub const KINDS: [&str; 7] = ["tail", "period", "text", "tiny", "long", "shrunk", "ringend"];
+pub const KINDS: [&str; 8] = ["tail", "period", "text", "tiny", "long", "shrunk", "ringend", "noisering"];
 
 pub fn d_class(d: usize, lgwin: i32) -> String {
     let w = 1usize << lgwin.clamp(10, 24);
@@ -331,6 +331,12 @@ pub fn make_input(c: &Case, dict: &[u8]) -> Vec<u8> {
                     _ => { let per = *rng.pick(&[2usize, 3, 5, 8, 13]); let r1 = rng.range(per as u64, 300) as usize; let r2 = rng.range(0, 64 + per as u64) as usize; let base: Vec<u8> = (0..per).map(|_| rng.next() as u8).collect(); for (i, x) in v[o - r1..o + r2].iter_mut().enumerate() { *x = base[i % per]; } }
                 }
             }
+        }
+        7 => { // noisering: incompressible bytes, 1.2-2.5 x the encoder ring (stored meta-blocks that straddle the ring end
+               // once a dictionary of a length that is not a block multiple shifts the stream positions)
+            let ring = enc_ring_size(c.lgwin, c.q);
+            let len = ring * (12 + rng.below(14) as usize) / 10;
+            for _ in 0..len { v.push(rng.next() as u8); }
         }
         _ => { // long: > ring buffer (q<=3: 2^(1+max(lgwin,14)), else 2^(1+max(lgwin,16..18)))
             let lw = c.lgwin.clamp(10, 24);
